@@ -17,16 +17,16 @@ def _mc_configs(ctx):
             {"cfg": "QuotaTree_mc_mem.cfg", "workers": 2, "timeout": 1200},
             {"cfg": "QuotaTree_mc_cpu2q.cfg", "workers": 2, "timeout": 1200},
         ]
-    return [
-        {"cfg": "QuotaTree_mc_cov.cfg", "workers": 1, "coverage": True, "timeout": 1700},   # tiny, -coverage 1
-        {"cfg": "QuotaTree_mc_mem.cfg", "workers": 2, "timeout": 1700},
-        {"cfg": "QuotaTree_mc_thr.cfg", "workers": 2, "timeout": 1700},
+    return [                                      # biggest first; at most 4 run concurrently
+        {"cfg": "QuotaTree_mc_cpu3.cfg", "workers": 8, "timeout": 1700, "heap": "8g"},
+        {"cfg": "QuotaTree_mc_joint3.cfg", "workers": 3, "timeout": 1700},
+        {"cfg": "QuotaTree_mc_memthr4.cfg", "workers": 2, "timeout": 1700},
+        {"cfg": "QuotaTree_mc_mem5.cfg", "workers": 2, "timeout": 1700},
         {"cfg": "QuotaTree_mc_cpu2.cfg", "workers": 2, "timeout": 1700},
         {"cfg": "QuotaTree_mc_cpu2_n2.cfg", "workers": 2, "timeout": 1700},
-        {"cfg": "QuotaTree_mc_mem5.cfg", "workers": 2, "timeout": 1700},
-        {"cfg": "QuotaTree_mc_memthr4.cfg", "workers": 2, "timeout": 1700},
-        {"cfg": "QuotaTree_mc_joint3.cfg", "workers": 3, "timeout": 1700},
-        {"cfg": "QuotaTree_mc_cpu3.cfg", "workers": 8, "timeout": 1700, "heap": "8g"},
+        {"cfg": "QuotaTree_mc_mem.cfg", "workers": 2, "timeout": 1700},
+        {"cfg": "QuotaTree_mc_thr.cfg", "workers": 2, "timeout": 1700},
+        {"cfg": "QuotaTree_mc_cov.cfg", "workers": 1, "coverage": True, "timeout": 1700},   # tiny, -coverage 1
     ]
 
 
@@ -191,15 +191,21 @@ def run(ctx):
         for v in Q.real_violations(rows[k]):
             n_real_viol += 1
             if v["kind"] == "accepted-breaks-fits":
-                cl = "+".join(Q.CLASS_KEY.get(c, c) for c in v["cls"]) or "fits-broken"
+                # a step may belong to several mechanism classes: it is an example for each of them (keeps the set
+                # of reported keys independent of the seed: one per class, the TLC witness first)
+                cls = [Q.CLASS_KEY.get(c, c) for c in v["cls"]] or ["fits-broken"]
             else:
-                cl = v["kind"]
+                cls = [v["kind"]]
             is_wit = v["row"]["case"].startswith("wit:")
-            cur = found.get(cl)
-            # canonical example per class: the TLC witness if it reproduces, else the shortest observed one
-            rank = (0 if is_wit else 1, len(v["ops"]), Q.fmt_ops(v["ops"]))
-            if cur is None or rank < cur[0]:
-                found[cl] = (rank, v)
+            for cl in cls:
+                if is_wit and Q.CLASS_KEY.get(v["row"]["case"].split(":")[1]) != cl:
+                    continue                      # a witness is the canonical example of its own class only
+                cur = found.get(cl)
+                # the witness over the production ("merged") path first: same key in both tiers
+                pri = 2 if not is_wit else (0 if v["row"]["case"].endswith(":merged") else 1)
+                rank = (pri, len(v["ops"]), Q.fmt_ops(v["ops"]))
+                if cur is None or rank < cur[0]:
+                    found[cl] = (rank, v)
     class_counts = {}
     for k in ("replay", "random", "enum", "wide"):
         for v in Q.real_violations(rows[k]):
